@@ -688,6 +688,24 @@ func CheckArmor(r *sim.Rand, rep Reporter) {
 	if !bytes.Equal(back.RawBytes(), raw) || fmt.Sprintf("%T", back) != fmt.Sprintf("%T", pk) {
 		rep.Violate("C19", "armor-roundtrip-key/"+kind, fmt.Sprintf("armor round trip turned a %T of %d bytes into a %T of %d bytes", pk, len(raw), back, len(back.RawBytes())))
 	}
+	if r.Chance(25) {
+		// the armor of either key type goes into a keybase and comes back as the same key
+		kb := keys.NewInMemory()
+		ip := passes[r.Intn(len(passes))]
+		var kp keys.KeyPair
+		if p := catch(func() { kp, err = kb.ImportPrivKey(arm, pass, ip) }); p != nil || err != nil {
+			rep.Violate("C19", "kb-import-of-armor-fails/"+kind, fmt.Sprintf("importing the armor of a %T under the right passphrase failed: %v %v", pk, p, err))
+			return
+		}
+		rep.Count("c19.armor.imports."+strings.SplitN(kind, "-", 2)[0], 1)
+		var k3 crypto.PrivateKey
+		if p := catch(func() { k3, err = kb.ExportPrivateKeyObject(kp.GetAddress(), ip) }); p != nil || err != nil || !bytes.Equal(k3.RawBytes(), raw) {
+			rep.Violate("C19", "kb-import-of-armor-key/"+kind, fmt.Sprintf("the imported armor of a %T does not come back as the same key: %v %v", pk, p, err))
+		}
+		if !samePub(kp.PublicKey, pk.PublicKey()) {
+			rep.Violate("C19", "kb-import-of-armor-pubkey/"+kind, fmt.Sprintf("the imported armor of a %T is stored with another public key", pk))
+		}
+	}
 	wp := nearPass(r, pass)
 	if !kdfEquivalent(wp, pass) {
 		var k2 crypto.PrivateKey
